@@ -14,7 +14,6 @@ ENV = "GOFLAGS=-mod=mod GOPROXY=off GOSUMDB=off GOTOOLCHAIN=local GOWORK=off"
 NA = {
  "C10": "exact arithmetic of Add/Lsh/Rsh/Mul/Div/Nand/Ltu for all operand values and widths is a numerical result over unbounded byte loops and big.Int round trips; no structural clause short of evaluating the arithmetic (the one structural part, one evaluator per operator, is decided under C09)",
  "C11": "each gadget's meaning is the value of a NAND/shift/compare network for all widths and operands; deciding it needs evaluation or a solver, which is another technique family",
- "C19": "whether conflict detection finds every pair of overlapping patterns is a property of mask algebra over all pattern sets; no structural necessary condition short of re-deriving that algebra (for the concrete RISC-V tables disjointness is decided under C02)",
  "C29": "termination and line widths of the greedy wrapper depend on string lengths and a running index; no sound structural necessary condition in reach",
 }
 
@@ -68,6 +67,9 @@ T = {
  "C18": ("SSA pattern + dominance rules on RegMap.Store/Load; concrete walk of State.Apply per effect kind and address-is-constant outcome (a walk returning false passes no store)",
          "stored/loaded register values pass through SetWidth with the method's own width, miss returns absent, a refused memory effect is refused before any state change, effect fields are forwarded from the same node",
          "trusts go/ssa and that exprtransform.SetWidth implements zero-extension/truncation (C12)", "§4 C18"),
+ "C19": ("interprocedural data/control dependence of every ambiguity decision on bytes and mask of both patterns; bit-parallel argument for the pair predicate (bytes touched bitwise only + walk over all 1-/2-byte patterns on a 2-/1-bit universe); ordering-complete walks of byteLT/byteEQ; decision table of Validate; guard and search-predicate rules of matchInstruction; comparator/cut/adjacency rules of group and newMaskGroup",
+         "structural necessary conditions of unambiguous, exact matching: a conflict between two patterns is decided from both byte strings and both masks by the exact predicate (agree on every bit both masks select, over the shorter length), every pattern of every pair of groups is compared, equal masks are grouped and equal masked bytes in a group rejected, a match is reported only under equality of the masked prefix and searched with a lower-bound predicate in a verified total order, every group is tried, malformed patterns are rejected. That these pieces compose to the property for every pattern set (sorting, binary search by the library) is NOT decided",
+         "trusts go/ssa, sort.Slice/sort.Search", "§4 C19"),
  "C20": ("decision tables by CFG walk over the ELF type enum (5 values); MachineCode walked over a one-section file for the 16 section-attribute combinations and Memory over a one-segment file for 7 (loadable, file size, memory size) combinations; deep-site provenance / guard rules for the blocks built by Memory() and MachineCode(); concrete interprocedural walks of newMemory (10 block lists), Block.Address (7 addresses) and Memory.Address (28 addresses over three blocks, sort.Search followed) on a concrete block list; error propagation",
          "accepts exactly EXEC and DYN, keeps exactly non-empty address-bearing executable PROGBITS, segments become (Vaddr, file bytes + zero fill to Memsz), sections (Addr, Data), overlap (and only overlap) rejected, lookups return the bytes from the address to the end of the containing block or nothing; debug/elf itself is trusted",
          "trusts go/ssa and debug/elf", "§4 C20"),
